@@ -26,7 +26,10 @@ CFG = dict(
                       "(more lost than Cancels, or an envelope lost that was delivered AFTER the last Cancel of its key that could have cost it)",
                  "3": "announce: a key was announced while it already had a live connection, or before any envelope carried it, or an envelope whose key "
                       "had no live connection arrived while the run loop was free and no connection was announced for it (first use, also after a Cancel)",
-                 "4": "write: an envelope on the shared transport is not the unchanged envelope of an accepted logical Write, or appears twice, out of per-connection order, or is missing",
+                 "4": "write: an envelope on the shared transport is not the unchanged envelope of an accepted logical Write, or appears twice, out of per-connection order, "
+                      "or is missing - also: once the shared transport accepts writes AGAIN (it never failed, no Stop) an envelope whose logical Write had returned nil "
+                      "on a live connection is not on the shared transport at the last quiescent point (whatever happened to the caller's context after the Write "
+                      "returned), or a Write on such a connection is still parked",
                  "5": "cancel: a panic, a call blocked on a cancelled connection at a quiescent point, a call issued after the Cancel that did not fail, "
                       "or Demux.Cancel / Demux.Stop itself had not returned at a quiescent point (o_ctl: e.g. it waits for a hand-off in progress "
                       "or for a consumer that is not reading)",
@@ -38,7 +41,8 @@ CFG = dict(
          "Run / writer goroutines by runtime.Stack, registered keys): ALL action "
          "words of length <= 4 (thorough 5) over {deliver k1,k2; read c0,c1; write c0; Cancel k1; Stop; cancel call 0}; ALL key sequences "
          "of length <= 5 (thorough 6) over 3 keys x consumption orders (eager, all 6 drain orders), with Cancel(key) and Stop inserted at "
-         "EVERY step; 1..3 concurrent writers with the shared transport ok/blocked/failing x Cancel/Stop at every step; seeded random walks "
+         "EVERY step; 1..3 concurrent writers with the shared transport ok/blocked/failing x Cancel/Stop at every step x the end of each Write call's "
+         "context (Canceled / DeadlineExceeded) at every step, also after the call has returned nil; seeded random walks "
          "over 1..8 keys, 5 key functions (source, destination, id, constant, names), by-reference and serialising transports, transport faults, "
          "ticks of the virtual clock (time.Sleep in the bubble; the model's no-op ATick), envelope shapes (no body, zero-byte body) and error kinds "
          "(io.EOF, errors wrapping io.EOF / context.Canceled / DeadlineExceeded as the shared Read's failure and as the calls' context errors); ALL words of "
